@@ -230,11 +230,14 @@ def trsbox_geometry_post(xbase, c, g, lower, upper, Delta, result, OLD):
 
 
 def step_norm_post_factory(name):
-    def post(xopt, delta, result):
+    def post(xopt, g, H, delta, result):
         d = result[0] if isinstance(result, tuple) else result
         if not np.all(np.isfinite(d)):
-            COUNTS[name + ".skipped-nonfinite"] += 1
-            return True
+            if not (np.all(np.isfinite(g)) and np.all(np.isfinite(H)) and np.all(np.isfinite(xopt)) and np.isfinite(delta)):
+                COUNTS[name + ".skipped-nonfinite-input"] += 1     # garbage in (fault-injected runs): nothing is promised
+                return True
+            return rec(name + ".ball", False, "%s: non-finite step %r from finite inputs (|g|=%.3g, |H|=%.3g, Delta=%.3g)" % (
+                name, d, float(np.linalg.norm(g)), float(np.linalg.norm(H)), delta), d=d, delta=delta, xopt=xopt, g=g, H=H)
         nd = float(np.linalg.norm(d))
         return rec(name + ".ball", nd <= delta * (1 + 1e-8) + 8 * EPS * float(np.linalg.norm(xopt)),
                    "%s: ||d||/Delta - 1 = %.3g (Delta=%.3g)" % (name, nd / delta - 1, delta), d=d, delta=delta, xopt=xopt)
@@ -245,11 +248,14 @@ ctrsbox_pgd_post = step_norm_post_factory("ctrsbox_pgd")
 ctrsbox_sfista_post = step_norm_post_factory("ctrsbox_sfista")
 
 
-def ctrsbox_geometry_post(xbase, Delta, result):
+def ctrsbox_geometry_post(xbase, c, g, Delta, result):
     d = result
     if not np.all(np.isfinite(d)):
-        COUNTS["ctrsbox_geometry.skipped-nonfinite"] += 1
-        return True
+        if not (np.isfinite(c) and np.all(np.isfinite(g)) and np.all(np.isfinite(xbase)) and np.isfinite(Delta)):
+            COUNTS["ctrsbox_geometry.skipped-nonfinite-input"] += 1
+            return True
+        return rec("ctrsbox_geometry.ball", False, "ctrsbox_geometry: non-finite step %r from finite inputs (c=%.3g, |g|=%.3g, Delta=%.3g)" % (
+            d, c, float(np.linalg.norm(g)), Delta), d=d, Delta=Delta, xbase=xbase)
     nd = float(np.linalg.norm(d))
     return rec("ctrsbox_geometry.ball", nd <= Delta * (1 + 1e-8) + 8 * EPS * float(np.linalg.norm(xbase)),
                "ctrsbox_geometry: ||d||/Delta - 1 = %.3g" % (nd / Delta - 1), d=d, Delta=Delta, xbase=xbase)
